@@ -94,7 +94,7 @@ class P:
                     for q in run:
                         dgrams.insert(min(k, len(dgrams)), q)
                         k += rng.choice([1, 2, 4])
-        if workers == 1 and tpls:
+        if workers == 1 and tpls and not getattr(self, "no_redef", False):
             # a RE-DEFINITION of a template id by a template of the SAME wire length (one element replaced, two neighbours swapped), then
             # data for it: one datagram at a time, so that the receive buffer that carried the old definition carries the new one
             (a, tid), (t, o) = rng.choice(list(tpls.items()))
@@ -237,7 +237,12 @@ class P:
         # workers RETIRED before the datagrams arrive (their quit channel is closed while they wait for work, as the dynamic
         # scaling does after a burst): the remaining workers process everything; a retired worker must not take a datagram with it
         for proto in ("ipfix", "nf9", "nf5", "sflow"):
-            line = self.case(proto, gens.get(proto), rng)
+            # (these run with FOUR workers whatever was drawn: nothing in them may depend on the order in which datagrams are processed)
+            self.no_redef = True
+            try:
+                line = self.case(proto, gens.get(proto), rng)
+            finally:
+                self.no_redef = False
             c = self.cj[line]
             c["workers"], c["retire"], c["procs"] = 4, rng.choice([1, 2, 3]), 0
             self.nworkers[line] = 4
